@@ -9,7 +9,8 @@ PROPERTY = "C05"
 LEVEL = "model_checking"
 LEVEL_TEXT = ("Comparison: TLC checks reflexivity, antisymmetry, transitivity, NULL-least and prefix-is-less of the REFERENCE orders "
               "(Cmp.tla) over all triples of a bounded universe; the implementation's comp method of every value class (str, ustr, "
-              "mbuff, url, regexp, tok, objpair, array/linked/dlinked list) is evaluated on ALL ordered pairs of that universe (each "
+              "mbuff, url, regexp, tok, objpair, array/linked/dlinked list - and of a MIXED universe holding every text as a str, a url and a "
+              "regexp, the comparison-compatible classes) is evaluated on ALL ordered pairs of that universe (each "
               "row in a forked child with a stack limit and watchdog) and TLC checks the recorded tables against the laws and, where "
               "the order is stated, against the reference (CmpLaws.tla).  Dup/independence: TLC explores SmallObj.tla (objpair, tok, "
               "url, regexp lifecycles with a copy slot) exhaustively and every transition is replayed on the real objects with "
@@ -50,6 +51,8 @@ def cmp_tables(ctx):
     for c in TEXT_CLASSES:
         plan.append((c, "text", [o for o in text if no0(o)]))
     plan.append(("mbuff", "text", text))
+    # pairs and triples of objects of DIFFERENT comparison-compatible classes: every text as a str, as a url and as a regexp
+    plan.append(("mix_str_url_regexp", "laws", [o for o in text if no0(o)][:150]))
     for c in ("str_nul", "ustr_nul"):
         plan.append((c, "laws", text))      # incl. texts with embedded NUL: laws only
     plan.append(("objpair", "pair", [o for o in pair if no0(o)]))
@@ -60,6 +63,11 @@ def cmp_tables(ctx):
         objs = objs[:250]
         for o in objs:
             lines.append("obj %s %s %s" % (tok(o["null"]), tok(o["k"]), tok(o["v"])))
+        if c.startswith("mix"):
+            for sel in (1, 2):
+                for o in objs:
+                    if not o["null"]:
+                        lines.append("obj %s %s %s %d" % (tok(o["null"]), tok(o["k"]), tok(o["v"]), sel))
         if c in ("str", "ustr", "mbuff"):
             # the same values again in representations with spare capacity (different amounts): equal values stay EQUAL
             for n, o in enumerate(objs):
@@ -116,7 +124,9 @@ def cmp_tables(ctx):
 def witness(t, inv):
     T, O = t["tbl"], t["objs"]
     n = len(O)
-    d = lambda i: "NULL" if O[i]["null"] else (tok(O[i]["k"]) + ":" + tok(O[i]["v"]) if t["kind"] == "pair" else tok(O[i]["v"]))
+    mixn = ["str", "url", "regexp"]
+    d = lambda i: "NULL" if O[i]["null"] else (tok(O[i]["k"]) + ":" + tok(O[i]["v"]) if t["kind"] == "pair" else
+                                               ((mixn[O[i].get("sel", 0)] + " " if t["cls"].startswith("mix") else "") + tok(O[i]["v"])))
     if inv == "Terminates":
         for i in range(n):
             for j in range(n):
@@ -169,8 +179,8 @@ SMALL = ["objpair", "tok", "url", "regexp"]
 SMALL_INIT = {"a": {"live": False, "p": 0, "q": 0, "r": 0}, "b": {"live": False, "p": 0, "q": 0, "r": 0}}
 # actions of SmallObj that do not apply to a class (never enabled there): not a vacuity
 SMALL_NA = {
-    "objpair": ["OpNewFromPtr", "OpSetFlags", "OpEval", "OpMatches", "OpBSetFlags", "OpBEval"],
-    "tok": ["OpNewFromKey", "OpNewFromValue", "OpNewFromBoth", "OpSetFlags", "OpMatches", "OpBSetFlags"],
+    "objpair": ["OpStrTrim", "OpBStrTrim", "OpStrRound", "OpNewFromPtr", "OpSetFlags", "OpEval", "OpMatches", "OpBSetFlags", "OpBEval"],
+    "tok": ["OpStrTrim", "OpBStrTrim", "OpStrRound", "OpNewFromKey", "OpNewFromValue", "OpNewFromBoth", "OpSetFlags", "OpMatches", "OpBSetFlags"],
     "url": ["OpNew", "OpNewFromKey", "OpNewFromValue", "OpNewFromBoth", "OpSetP", "OpSetFlags", "OpEval", "OpMatches", "OpBSetFlags", "OpBEval"],
     "regexp": ["OpNewFromKey", "OpNewFromValue", "OpNewFromBoth", "OpSetP", "OpSetQ", "OpEval", "OpBSetQ", "OpBEval", "OpClearQ", "OpBClearQ"],
 }
